@@ -147,6 +147,8 @@ harness(void) {
   int i, j, nvis = 0;
 
   vp_arr_init(&vp_A, VP_ARR_INTERNAL);
+  vp_A.kcap = 9;
+  vp_A.vcap = 1;
   vp_ref.n = 0;
   vp_samples = 0;
 
